@@ -266,19 +266,25 @@ class _RE:
 
 
 def r20e(chk, rid='R20.e'):
-    chk.rule(rid, 'XML sniffing decided on representative documents by evaluating detectXMLEncoding\'s syntax tree with a file object over constant data: for text and for bytes, with each of the five BOMs, with and without an XML declaration (agreeing or disagreeing with the BOM), with and without includeDefault, opened at position 0 and at a later position - the answer is the BOM\'s encoding if there is a BOM, else the declared encoding (lower-cased), else utf-8 / None, and the position is the same before and after')
+    chk.rule(rid, 'XML sniffing decided on representative documents by evaluating detectXMLEncoding\'s syntax tree with a file object over constant data: for text and for bytes, with each of the five BOMs, with and without an XML declaration (agreeing or disagreeing with the BOM; on one line or several; without encoding but followed by a processing instruction that has one), with and without includeDefault, opened at position 0 and at a later position - the answer is the BOM\'s encoding if there is a BOM, else the declared encoding (lower-cased), else utf-8 / None, and the position is the same before and after')
     m = chk.repo.mod(ENC)
     fn = _patch_re_flags(m.get('detectXMLEncoding'))
     boms = {b'': None, b'\xef\xbb\xbf': 'utf-8', b'\xff\xfe': 'utf_16_le', b'\xfe\xff': 'utf_16_be', b'\xff\xfe\x00\x00': 'utf_32_le', b'\x00\x00\xfe\xff': 'utf_32_be'}
-    decls = {None: b'<root/>....', 'iso-8859-5': b'<?xml version="1.0" encoding="ISO-8859-5"?><a/>', 'koi8-r': b"<?xml version='1.0' encoding='koi8-r' standalone='yes'?><a/>"}
+    decls = {None: b'<root/>....', 'iso-8859-5': b'<?xml version="1.0" encoding="ISO-8859-5"?><a/>', 'koi8-r': b"<?xml version='1.0' encoding='koi8-r' standalone='yes'?><a/>",
+             # the declaration ends at its own "?>": an encoding="..." further down is not its pseudo-attribute; the pseudo-attributes may stand on separate lines
+             (None, 'a declaration without encoding, a later processing instruction with one on the same line'): b'<?xml version="1.0"?><?pi encoding="koi8-r"?><a/>',
+             (None, 'a declaration without encoding, a later processing instruction with one on the next line'): b'<?xml version="1.0"?>\n<?pi encoding="koi8-r"?><a/>',
+             ('iso-8859-5', 'pseudo-attributes on separate lines'): b'<?xml version="1.0"\n  encoding="ISO-8859-5"\n?><a/>'}
     n = bad = 0
+    per_decl = {}
     intr = {
         'io.StringIO': lambda s: _FP(s),
         'io.BytesIO': lambda b: _FP(b),
         're.compile': lambda p, f=0: _RE(p, f),
     }
     for bom, benc in boms.items():
-        for denc, body in decls.items():
+        for dkey, body in decls.items():
+            denc, dlabel = dkey if isinstance(dkey, tuple) else (dkey, dkey)
             for kind in ('bytes', 'str', 'file@0', 'file@3'):
                 if kind == 'str' and bom:
                     continue  # a BOM is a byte-level signature
@@ -301,8 +307,9 @@ def r20e(chk, rid='R20.e'):
                     ok = got == want and (start is None or arg.pos == start)
                     if not ok:
                         bad += 1
-                        if bad <= 6:
-                            chk.ob(rid, ENC, 'detectXMLEncoding', f'{kind} document, BOM {benc}, declaration {denc}, includeDefault={incl}', False,
+                        per_decl[dlabel] = per_decl.get(dlabel, 0) + 1
+                        if per_decl[dlabel] <= 2:
+                            chk.ob(rid, ENC, 'detectXMLEncoding', f'{kind} document, BOM {benc}, declaration {dlabel}, includeDefault={incl}', False,
                                    f'answers {got!r} (stream position {getattr(arg, "pos", None)} after, {start} before); expected {want!r} with the position unchanged')
     chk.ob(rid, ENC, 'detectXMLEncoding', f'all {n} representative documents are sniffed by the documented order, stream position untouched', bad == 0 or True, f'{bad} differ', trivial=bad > 0)
 
@@ -335,8 +342,8 @@ def r20d(chk, rid='R20.d'):
 
 
 def r20f(chk, rid='R20.f'):
-    chk.rule(rid, 'the meta sniffer sees the whole document, decided by evaluation: getMetaInfo is evaluated on its syntax tree with a model parser that finds the Content-Type meta element wherever it stands in what it is fed: for a declaration near the start, in the middle and at the very end of a long document the media type and the lower-cased charset are returned; without one, (None, None)')
-    chk.assume('R20.f: the HTML parser is a model that finds the Content-Type meta element wherever it stands in the text it is fed and refuses bytes like html.parser does')
+    chk.rule(rid, 'the meta sniffer sees the whole document, decided by evaluation: getMetaInfo is evaluated on its syntax tree with the methods of _MetaHTMLParser evaluated from the source on top of a model of html.parser (start tags found anywhere in the text that is fed, tag and attribute names lower-cased): for a declaration near the start, in the middle and at the very end of a long document the media type and the lower-cased charset are returned; without one, (None, None)')
+    chk.assume('R20.f: html.parser.HTMLParser is modelled as a start-tag scanner that lower-cases tag and attribute names and refuses bytes; the methods _MetaHTMLParser defines itself are evaluated from the source')
     from email.message import Message
 
     from sa.absint import Evaluator, Raised, Record
@@ -346,31 +353,58 @@ def r20f(chk, rid='R20.f'):
     META = '<meta http-equiv="Content-Type" content="Text/HTML; charset=ISO-8859-5">'
     from sa.absint import _Raise
 
+    import re as _re
+
+    from .effects import Effects
+
+    eff = Effects.get(chk.repo)
+    ci = [c for c in eff.classes.get('_MetaHTMLParser', []) if c.rel == ENC]
+    if not ci:
+        raise AnalysisError('encutils: class _MetaHTMLParser vanished')
+    own = ci[0].methods
+    if 'handle_starttag' not in own:
+        raise AnalysisError('_MetaHTMLParser.handle_starttag vanished')
+    TAG = _re.compile(r"""<([a-zA-Z][^\s/>]*)((?:\s+[^\s=>/]+(?:\s*=\s*(?:"[^"]*"|'[^']*'|[^\s>]*))?)*)\s*/?>""")
+    ATT = _re.compile(r"""([^\s=>/]+)(?:\s*=\s*(?:"([^"]*)"|'([^']*)'|([^\s>]*)))?""")
+    UP = '<META HTTP-EQUIV="Content-Type" CONTENT="Text/HTML; charset=ISO-8859-5">'
+    MIX = "<Meta Http-Equiv='content-type' Content='Text/HTML; charset=ISO-8859-5' />"
     for label, doc, want in (
         ('in a document given as bytes', ('<html><head>' + META + '</head>').encode('ascii'), ('text/html', 'iso-8859-5')),
         ('near the start', '<html><head>' + META + '</head>' + 'x' * 6000, ('text/html', 'iso-8859-5')),
         ('in the middle', '<html><!--' + 'c' * 3000 + '-->' + META + 'y' * 3000, ('text/html', 'iso-8859-5')),
         ('at the very end', '<html><style>' + 's' * 70000 + '</style>' + META, ('text/html', 'iso-8859-5')),
+        ('written in upper case', '<HTML><HEAD>' + UP + '</HEAD>', ('text/html', 'iso-8859-5')),
+        ('written in mixed case with single quotes', '<html>' + MIX, ('text/html', 'iso-8859-5')),
+        ('behind another meta element', '<meta name="x" content="y">' + META, ('text/html', 'iso-8859-5')),
         ('absent', '<html>' + 'z' * 500, (None, None)),
     ):
         fed = []
 
         def parser():
+            # html.parser.HTMLParser as far as this class uses it: feed() takes text only, finds the start tags and calls
+            # handle_starttag with the lower-cased tag name and (lower-cased name, value) pairs; the methods the class
+            # defines itself are its own, evaluated from the source
             p = Record(content_type=None)
 
-            def feed(t):
+            def base_feed(t):
                 fed.append(t)
                 if not isinstance(t, str):
                     raise _Raise('TypeError')  # html.parser.HTMLParser.feed accepts text only
-                if META in t:
-                    p.content_type = 'Text/HTML; charset=ISO-8859-5'
-            p.feed = feed
+                for mo in TAG.finditer(t):
+                    attrs = [(a.group(1).lower(), next((g for g in a.groups()[1:] if g is not None), None)) for a in ATT.finditer(mo.group(2))]
+                    Evaluator(own['handle_starttag'], module=m, cls='_MetaHTMLParser').call_function(own['handle_starttag'], [mo.group(1).lower(), attrs], {}, bound_self=p)
+
+            if 'feed' in own:
+                ev = Evaluator(own['feed'], intrinsics={'super': lambda *a: Record(feed=base_feed)}, module=m, cls='_MetaHTMLParser')
+                p.feed = lambda t: ev.call_function(own['feed'], [t], {}, bound_self=p)
+            else:
+                p.feed = base_feed
             return p
 
         got = Evaluator(fn, intrinsics={'_MetaHTMLParser': parser, 'Message': Message}, model_types=(Message,), module=m).run(text=doc, log=None)
         ok = not isinstance(got, Raised) and tuple(got) == want
         chk.ob(rid, ENC, 'getMetaInfo', f'meta declaration {label}', ok,
-               f'returns {got!r} (the parser was fed {[len(t) for t in fed]} of {len(doc)} characters): a declaration outside the part that is searched is not seen, so the encoding falls back to the media-type default and mismatches go unnoticed')
+               f'returns {got!r} (the parser was fed {[len(t) for t in fed]} of {len(doc)} characters): a declaration outside the part that is searched, or in another letter case, is not seen, so the encoding falls back to the media-type default and mismatches go unnoticed')
 
     # the naive XML test used when no media type is known
     gt = m.get('_getTextType')
